@@ -453,7 +453,7 @@ impl<B> Flow<B, Await100> {
     }
 
     /// Proceed to the next state.
-    pub fn proceed(self) -> Result<Await100Result<B>, Error> {
+    pub fn proceed(mut self) -> Result<Await100Result<B>, Error> {
         // We can always proceed out of Await100
 
         if self.inner.should_send_body {
@@ -461,6 +461,14 @@ impl<B> Flow<B, Await100> {
             flow.inner.call.analyze_request()?;
             Ok(Await100Result::SendBody(flow))
         } else {
+            // The server answered with something else than 100-continue. The body
+            // is never sent, we go straight to receiving that response.
+            let call = match self.inner.call {
+                CallHolder::WithBody(v) => v,
+                _ => unreachable!(),
+            };
+            self.inner.call = CallHolder::RecvResponse(call.into_receive_without_body());
+
             Ok(Await100Result::RecvResponse(Flow::wrap(self.inner)))
         }
     }
